@@ -2,15 +2,15 @@ SPECIFICATION Spec
 CONSTANTS
   PosPeriod = 1
   NegPeriod = 0
-  MaxClock = 0
+  MaxClock = 2
   MaxCalls = 3
   AllowRChoices = {{}}
   AllowSChoices = {{"R"}}
-  RecogAInit = {TRUE}
+  RecogAInit = {TRUE, FALSE}
   ChainPeers = {"A"}
-  MaxChain = 0
+  MaxChain = 1
   MaxErr = 0
-  GuardOn = FALSE
+  GuardOn = TRUE
   Nonces = {1}
   HsBudget = 0
   MaxDials = 1
@@ -28,10 +28,12 @@ CONSTANTS
   Backoff2 = TRUE
   CancelMsgs = {}
   MaxAdv = 1
-  AdvKinds = {"own"}
+  AdvKinds = {"own", "impostor"}
   FwInbound = TRUE
   VerifyAct1 = TRUE
   MatchInner = TRUE
   StrictSign = TRUE
   Reduce = TRUE
-INVARIANTS TypeOK PerNodeAdmission
+INVARIANTS TypeOK FirewallInvs HandshakeInvs BroadcastInvs RetransmissionInvs
+  LinkAuthenticated LinkJustified HopAdmitted RejectedNeverDelivered HandlerNeverSeesRejected NoImpostor HandlerSeesAuthor Authentic ForgedNeverRead
+  PubsExact SenderStops WireOnLiveLinks
